@@ -19,7 +19,17 @@ Inductive case :=
 (* race-detector build: did a report with a lura frame appear during the scenario *)
 | CRace (scenario : string) (observed_race : bool)
 (* a concurrent scenario killed the process (e.g. the runtime's concurrent map access check) *)
-| CCrash (scenario : string) (msg : string).
+| CCrash (scenario : string) (msg : string)
+(* a concurrent scenario made no progress (nothing completed within the stall limit, or the budget
+   was overrun): the operations listed were blocked - "can be used from any number of goroutines
+   at once" is violated by a deadlock as much as by a race *)
+| CBlocked (scenario : string) (in_flight : list string)
+(* a child process of the generator ran all its scenarios to the end (also: the liveness stress in
+   which handlers are built through the routers' lookup path while renders are being registered) *)
+| CLive (scenario : string) (finished : bool)
+(* placeholder keeping case indices stable: a result a child did not deliver (the child's own
+   status case says why) *)
+| CSkip (scenario : string).
 
 Open Scope Z_scope.
 (* is d a delay the model can return for some value of Intn *)
@@ -50,6 +60,9 @@ Definition check_case (c : case) : bool * bool :=
       (nsmap_eqb (ns_run [] regs) final, ns_all_present regs final)
   | CRace _ o => (negb o, negb o)
   | CCrash _ _ => (false, false)
+  | CBlocked _ _ => (false, false)
+  | CLive _ f => (f, f)
+  | CSkip _ => (true, true)
   end.
 
 Fixpoint failing (i : nat) (cs : list case) : list verdict :=
